@@ -39,6 +39,7 @@ fn promise_case<P: G>(cfg: Cfg, j: usize, tier: Tier, top: bool) -> Box<dyn Case
         created.retain(|p| seen.insert(*p));
         // verdicts of the promise-free twin batches (layout [triple, companion] and [companion, triple]), computed once
         let mut twin_memo: [Option<bool>; 2] = [None, None];
+        let mut promise_free_memo: Option<bool> = None;
         for p in created {
             let mut wit = base.clone();
             wit.promises[j] = p;
@@ -57,6 +58,25 @@ fn promise_case<P: G>(cfg: Cfg, j: usize, tier: Tier, top: bool) -> Box<dyn Case
             let base_ok = verify_observed_one(&built.statement, &proof, &CTX_A, VerifyAction::VerifyOnly).is_ok();
             if !base_ok {
                 *res.outcome_counter("own-statement-not-accepted(accept-expectations skipped)") += 1;
+                // ... unless the promise is what makes the difference: the same witness proved and verified WITHOUT a promise
+                // at position j is accepted, so it is this (fitting, satisfied) promise the verifier does not honour
+                let promise_free_ok = *promise_free_memo.get_or_insert_with(|| {
+                    let mut w0 = base.clone();
+                    w0.promises[j] = None;
+                    match build_cached::<P>(&cfg, &w0) {
+                        Ok(b0) => match catch(|| lib_prove(&b0, &CTX_A, &mut HRng::chacha(41))) {
+                            Ok(Ok(p0)) => verify_observed_one(&b0.statement, &p0, &CTX_A, VerifyAction::VerifyOnly).is_ok(),
+                            _ => false,
+                        },
+                        Err(_) => false,
+                    }
+                });
+                if promise_free_ok && p.is_some() {
+                    res.violate(
+                        format!("own-statement/p={:?}", p),
+                        format!("a proof created under the satisfied promise {:?} (value {}, {} bits) is not accepted under that promise, although the same witness without a promise is proved and accepted", p, vj, cfg.n),
+                    );
+                }
             }
             let mut subs: Vec<Option<u64>> = vec![
                 None,
